@@ -201,6 +201,10 @@ def _type_matches(inf, run) -> bool:
         return False
     if iname not in rname.split('|'):
         return False
+    if not rargs and iargs and 'Generic' in rname.split('|'):
+        # an instance of a user-defined generic class does not carry its type arguments at run time; they are judged through
+        # the values read from it (fields, method results)
+        return True
     if len(iargs) != len(rargs):
         return not rargs and not iargs
     return all(_type_matches(x, y) for x, y in zip(iargs, rargs))
@@ -502,13 +506,72 @@ def cross_module_programs():
         yield pyprog.Program(f'cross{i // per}', prelude, fns[i:i + per], layer='cross', extra=extra)
 
 
+GENERIC_SHAPES = '''from typing import Generic, TypeVar
+
+T = TypeVar('T')
+K = TypeVar('K')
+
+def first_of(d: dict[str, list[T]]) -> T:
+	return d['a'][0]
+
+def tail_of(t: tuple[int, list[T]]) -> list[T]:
+	return t[1]
+
+def inner_of(xs: list[list[T]]) -> T:
+	return xs[0][0]
+
+def second_of(p: tuple[str, T]) -> T:
+	return p[1]
+
+def deep_of(d: dict[str, dict[int, list[T]]]) -> T:
+	return d['a'][1][0]
+
+def key_of(d: dict[K, list[T]], k: K) -> T:
+	return d[k][0]
+
+class Index(Generic[T]):
+	rows: dict[str, list[T]]
+
+	def __init__(self, rows: dict[str, list[T]]) -> None:
+		self.rows = rows
+
+	def first(self, k: str) -> T:
+		return self.rows[k][0]
+'''
+
+
+def generic_shape_programs():
+    """Calls of generic functions / a generic class whose type variable sits deeper in a parameter's type than an earlier
+    sibling leaf (dict[str, list[T]], tuple[int, list[T]], ...): the argument bound to T is the one at T's own position.
+    The generic definitions live in a module of their own (inside them T has no run-time type to compare with)."""
+    extra = {'c03g_lib': GENERIC_SHAPES}
+    prelude = pyprog.HEADER + 'from c03g_lib import Index, deep_of, first_of, inner_of, key_of, second_of, tail_of\n\n'
+    fns = []
+
+    def add(tag, body):
+        k = len(fns)
+        src = f'def g{k}(p: bool) -> int:\n' + '\n'.join('\t' + l for l in body.split('\n')) + '\n\treturn 1\n\n'
+        fns.append((f'g{k}', src, Entry(f'g{k}', [('p', 'bool')], vectors=[(True,), (False,)], tag=f'generic-shape:{tag}')))
+    for tag, val in [('float', '1.5'), ('int', '2'), ('bool', 'p'), ('str', "'s'")]:
+        add(f'dict-list:{tag}', "v = first_of({'a': [" + val + "]})\nw = v")
+        add(f'tuple-list:{tag}', f't = tail_of((1, [{val}]))\nu = t[0]')
+        add(f'list-list:{tag}', f'v = inner_of([[{val}]])\nw = v')
+        add(f'tuple-leaf:{tag}', f"v = second_of(('k', {val}))\nw = v")
+        add(f'dict-dict-list:{tag}', "v = deep_of({'a': {1: [" + val + "]}})\nw = v")
+        add(f'two-vars:{tag}', "v = key_of({1: [" + val + "]}, 1)\nw = v")
+        add(f'class:{tag}', "ix = Index({'a': [" + val + "]})\nf = ix.first('a')\nr = ix.rows")
+    per = 14
+    for i in range(0, len(fns), per):
+        yield pyprog.Program(f'gshape{i // per}', prelude, fns[i:i + per], layer='cross', extra=extra)
+
+
 def worker(pj):
     return judge(pyprog.Program.from_json(pj))
 
 
 def run(ctx):
     from mc.props.c01 import attribute_minimal
-    progs = list(pyprog.programs(ctx.quick)) + list(numeric_chain_programs(ctx.quick)) + list(iterator_programs()) + list(receiver_access_programs()) + list(cross_module_programs())
+    progs = list(pyprog.programs(ctx.quick)) + list(numeric_chain_programs(ctx.quick)) + list(iterator_programs()) + list(receiver_access_programs()) + list(cross_module_programs()) + list(generic_shape_programs())
     ctx.log(f'{len(progs)} modules')
     from mc.props.c01 import warm_parent
     warm_parent()
